@@ -8,9 +8,11 @@ Local Open Scope N_scope.
 Local Open Scope list_scope.
 
 Record case := mkCase {
+  c_interp : bool;                       (* the literal is bound to $s and interpolated: "#{$s}" *)
   c_single : bool;                       (* the source literal is single-quoted *)
   c_body : list N;                       (* code points between the quotes of the source literal *)
-  c_impl : option (list (list N)) }.     (* [token; length; quote(unquote); unquote] as code points; None = error *)
+  c_impl : option (list (list N)) }.     (* [token; length; quote(unquote); unquote] as code points; None = error;
+                                            interpolation cases: ["#{$s}"; "#{$s}" == $s; str-length("#{$s}"); str-length($s)] *)
 
 (* ---- the model's outputs ---- *)
 Definition unquoted_value (s : cssstring) : option cssstring :=
@@ -33,9 +35,32 @@ Definition model_outputs (single : bool) (body : list N) : option (list (list N)
       end
   end.
 
+(* $s: <literal>;  i: "#{$s}";  e: "#{$s}" == $s;  n: str-length("#{$s}");  l: str-length($s) *)
+Definition t_bool (b : bool) : list N := if b then [116; 114; 117; 101] else [102; 97; 108; 115; 101].
+Definition interp_outputs (single : bool) (body : list N) : option (list (list N)) :=
+  match literal_value_of single body with
+  | None => None
+  | Some lv =>
+      match css_unquote lv with
+      | None => None
+      | Some u =>
+          match interp_escape (css_display (mkStr u QNone)) false with
+          | None => None
+          | Some r =>
+              let res := pref_dquotes (mkStr r QDouble) in
+              match css_eq res lv with
+              | Some e =>
+                  Some [ prop_write (css_display res); t_bool e;
+                         dec_of_Z (Z.of_nat (length r)); dec_of_Z (Z.of_nat (length (s_val lv))) ]
+              | None => None
+              end
+          end
+      end
+  end.
+
 Definition texts_eqb (a b : list (list N)) : bool := list_eqb cps_eqb a b.
 Definition corr (c : case) : Z :=
-  match model_outputs (c_single c) (c_body c), c_impl c with
+  match (if c_interp c then interp_outputs (c_single c) (c_body c) else model_outputs (c_single c) (c_body c)), c_impl c with
   | Some a, Some b => if texts_eqb a b then 1%Z else 0%Z
   | None, None => 1%Z
   | None, Some _ => 2%Z                   (* literal outside the modelled grammar *)
@@ -78,6 +103,12 @@ Definition nth_text (c : case) (i : nat) : list N :=
 
 Definition clause_emit (c : case) : bool :=
   match c_impl c with Some _ => token_denotes (nth_text c 0) (denoted c) | None => false end.
+(* interpolation: "#{$s}" is equal to $s and has the same length *)
+Definition clause_interp_same (c : case) : bool :=
+  match c_impl c with
+  | Some _ => cps_eqb (nth_text c 1) (t_bool true) && cps_eqb (nth_text c 2) (nth_text c 3)
+  | None => false
+  end.
 Definition clause_length (c : case) : bool :=
   match c_impl c with
   | Some _ => cps_eqb (nth_text c 1) (dec_of_Z (Z.of_nat (length (denoted c))))
@@ -141,6 +172,12 @@ Definition known_qu (c : case) : bool :=
 
 Definition b2z (b : bool) : Z := if b then 1%Z else 0%Z.
 Definition run (c : case) : list Z :=
+  if c_interp c then
+  [ corr c;
+    b2z (clause_emit c); (if known_emit c then 2 else 0)%Z;
+    1%Z; 0%Z;
+    b2z (clause_interp_same c); (if known_emit c then 2 else 0)%Z ]
+  else
   [ corr c;
     b2z (clause_emit c); (if known_emit c then 2 else 0)%Z;
     b2z (clause_length c); (if known_len c then 1 else 0)%Z;
